@@ -285,8 +285,9 @@ CLAIMED.update(
             "Decides the round-trip clause on a finite partition: for 17 float representatives, 17 primitives (bool, small/huge/negative ints, str and bytes with quotes/escapes/NUL, complex "
             "with signed-zero / inf / nan components) and 10 collections, literal_to_cst interpreted from source yields valid tokens whose text evaluates to the same value (type, sign of "
             "zero, inf, nan), and parse_literal applied to the very term the renderer built returns the value (the parser accepts exactly the shapes the renderer emits); the ML twin "
-            "ml_value_to_cst agrees on the numeric partition; generate / mutate / parse / render dispatch over the same primitive types with bool before int; no renderer is memoised. "
-            "Random generation and mutation draws are not decided.",
+            "ml_value_to_cst agrees on the numeric partition; generate / mutate / parse / render dispatch over the same primitive types with bool before int; no renderer is memoised; "
+            "generate_literal, interpreted for the 11 requested types under configurations with maximum sizes 0 / 1 / default and scripted lowest / highest / seeded draws (randrange with "
+            "its empty-range error modelled), yields without raising valid tokens that evaluate to a value of the requested type within the configured size. Mutation draws are not decided.",
             "Trusts sa/engine/peval.py and sa/engine/cstterm.py.",
             "DESIGN.md §3 C23",
         ),
@@ -429,7 +430,8 @@ CLAIMED.update(
             "who-may-write typestate on the execution trace (every writer behind the thread-ownership check, every mutation through the thread-local state), handler-order rule on exec paths, bounded-join and fresh-result shape rules in the executor",
             "Decides the mechanism that keeps an abandoned execution from polluting later results: every ExecutionTracer method that mutates the trace is wrapped by _early_return or "
             "calls self.check() before its first write, undecorated private writers are reachable only from such methods and not from outside the class; the wrapper returns when disabled, "
-            "then calls check(), which raises TracingAbortedException exactly when the current thread is not the recorded owner; __enter__ records and stop() revokes ownership; every "
+            "then calls check(), which raises TracingAbortedException exactly when the current thread is not the recorded owner; __enter__ records and stop() revokes ownership - and the four methods, interpreted over schedules of two execution threads and the executor, abort exactly the threads that do not own the tracer, "
+            "an abandoned thread that unwinds later never revoking the ownership of the thread that runs by then; every "
             "trace mutation goes through self._thread_local_state.trace of a threading.local subclass and no plain attribute of the tracer holds the current trace; on every exec path a "
             "TracingAbortedException handler that re-raises or records the abort precedes any BaseException / bare handler; the executor joins its daemon thread with timeouts that are "
             "the configured maximum or a min() containing it and, interpreted for test cases of size 0, 1, 3 and 1000, positive (thread and subprocess executors), stops the tracer when the thread is still alive, answers with a fresh ExecutionResult(timeout=True) and uses a fresh result "
